@@ -1406,7 +1406,33 @@ func (w *World) computeModSets() {
 						}
 					}
 					// external callees may write into slices/pointers passed
-					if sc := c.StaticCallee(); sc == nil || !inRepo(sc) {
+					hasExtContract := false
+					if sc := c.StaticCallee(); sc != nil && !inRepo(sc) {
+						if ct, ok := w.Specs.Contracts[externName(sc)]; ok {
+							hasExtContract = true
+							for _, n := range ct.Modifies {
+								if strings.HasPrefix(n, "contents(") {
+									ms.names[contentsHeapNameExt(n, ct, c)] = true
+								} else if !strings.HasPrefix(n, "ghost.") && !(len(n) > 2 && n[1] == ':') && n != "*" {
+									ms.names["F:"+n] = true
+								}
+							}
+						}
+					}
+					if c.IsInvoke() {
+						key := "(" + types.TypeString(types.Unalias(c.Value.Type()), nil) + ")." + c.Method.Name()
+						if ct, ok := w.Specs.Contracts[key]; ok {
+							hasExtContract = true
+							for _, n := range ct.Modifies {
+								if strings.HasPrefix(n, "contents(") {
+									ms.names["E:"] = true
+								} else if !strings.HasPrefix(n, "ghost.") && !(len(n) > 2 && n[1] == ':') && n != "*" {
+									ms.names["F:"+n] = true
+								}
+							}
+						}
+					}
+					if sc := c.StaticCallee(); (sc == nil || !inRepo(sc)) && !hasExtContract {
 						for _, a := range c.Args {
 							switch u := a.Type().Underlying().(type) {
 							case *types.Slice:
@@ -1682,7 +1708,7 @@ func (fr *Frame) loopModSet(lp *Loop, st *State) *modSet {
 					addMS(x.W.fnModSet(sc), cl)
 				} else if sc != nil {
 					// external with contract?
-					if ct, ok := x.W.Specs.Contracts[externName(sc)]; ok && (ct.HasMod || ct.Pure) {
+					if ct, ok := x.W.Specs.Contracts[externName(sc)]; ok {
 						for _, n := range ct.Modifies {
 							switch {
 							case n == "*":
@@ -1929,10 +1955,10 @@ func (x *X) havocGhostOf(st *State, a Value) {
 		return
 	}
 	for name, g := range x.W.Specs.Ghosts {
-		srt := (&Env{x: x}).sortByName(g.Sort)
-		if srt.Kind != SArray || srt.K != IntSort {
-			continue
+		if g.Sort != "ObjIntArray" && g.Sort != "ObjSet" {
+			continue // only ghost state indexed by object identity
 		}
+		srt := (&Env{x: x}).sortByName(g.Sort)
 		cur := x.heapRead(st, "ghost:"+name, srt)
 		x.heapSet(st, "ghost:"+name, x.B.Store(cur, key, x.B.Fresh("gh_"+name, srt.V)))
 	}
@@ -1971,7 +1997,7 @@ func (w *World) ghostMods(fn *ssa.Function) []string {
 						}
 						if len(ct.Touches) > 0 {
 							for g, gv := range w.Specs.Ghosts {
-								if gv.Sort == "IntArray" || gv.Sort == "IntSet" {
+								if gv.Sort == "ObjIntArray" || gv.Sort == "ObjSet" {
 									gm["ghost:"+g] = true
 								}
 							}
@@ -2003,4 +2029,25 @@ func (w *World) ghostMods(fn *ssa.Function) []string {
 	}
 	sort.Strings(out)
 	return out
+}
+
+// contentsHeapNameExt resolves contents(p) of an extern contract against the
+// actual argument types of a call.
+func contentsHeapNameExt(n string, ct *Contract, c *ssa.CallCommon) string {
+	arg := strings.TrimSuffix(strings.TrimPrefix(n, "contents("), ")")
+	for i, p := range ct.Params {
+		if p != arg {
+			continue
+		}
+		k := i
+		if c.IsInvoke() {
+			k = i - 1
+		}
+		if k >= 0 && k < len(c.Args) {
+			if sl, ok := c.Args[k].Type().Underlying().(*types.Slice); ok {
+				return "E:" + heapTypeName(sl.Elem())
+			}
+		}
+	}
+	return "E:"
 }
